@@ -145,6 +145,7 @@ HIST = ('Two-call histories: when (and only when) the call under test is seen to
 EXTRA_TEXT = {
     'C02': 'Refinement invariance also rests on the response being a function of its arguments only: two-call histories (earlier call with another time step) are part of the check.',
     'C03': 'History unit: read s_a/s_v/s_d, change the record or the response periods through a public operation (11 operations), read again: fresh-object values. Energy spectra are replayed against their defining sums at the requested damping (xi = 0 included).',
+    'C04': 'The smoothing settings mean what they say (unbounded, from an arbitrary state incl. stale bookkeeping): smooth_freq_points = k gives k log-spaced points over the range currently in force, smooth_freq_range = (a, b) the current number of points over (a, b), set_smooth_fa_frequecies_by_range and smooth_fa_freqs = f likewise; the smoothed spectrum is dropped.',
     'C05': 'Bounded: Cluster.time_match / same_start on two-signal clusters whose second record may be LONGER than the first (lags -1/0/1, either master, float and int): every signal stays a numeric array with len == npts and time == dt*[0..npts-1]; caller arrays unchanged.',
     'C06': 'calc_fa_spectrum with every p2_plus in 0..3 as its own case (0 is falsy). History unit: read the spectrum, change the record through a public operation (8-11 operations, Signal and AccSignal), read again: fresh-object spectrum.',
     'C07': 'History unit: read the smoothed spectrum, change the record or the smoothing frequencies through a public operation (12 operations incl. set_smooth_fa_frequecies_by_range), read again: fresh-object values.',
@@ -158,7 +159,7 @@ EXTRA_TEXT = {
            'two identical components give 2**b times (combined) / exactly (geometric mean) the single-component amplitude. Power laws used: (x y)**e = x**e y**e, (x**(1/b))**b = x, monotonicity (A4, instantiated in the contract).',
     'C12': 'The tolerance-subsequence clause of the switched peaks is split: for tolerances that do not exceed the peak of any zero-tolerance half cycle it holds on the unchanged code and is checked (bounded); above that it is known finding K5.',
     'C14': 'resample_to_approx_dt: the record itself (same length, same values) is what scipy.signal.resample is called on and the returned values are exactly its result.',
-    'C15': 'Two-call histories: a transform returned earlier is not overwritten by a later transform.',
+    'C15': 'Two-call histories: a transform returned earlier is not overwritten by a later transform. Unbounded (any length, even and odd): transform and transform_w_scipy_fft return cell-wise equal arrays of shape (n//2, 2(n//2)) (one uninterpreted row-wise inverse DFT of the same product); thorough tier: the same at n = 258 (129 = 128 + 1 rows) with uninterpreted kernels.',
     'C16': 'Two-call histories: a path that was saved to and loaded from before (other record, time step, label) loads back what was saved last.',
     'C17': 'The coefficients handed to filtfilt are the Butterworth design of THIS request (uninterpreted design function of (type, order, cut-offs): congruent, so a correctly keyed design cache verifies and a cache that ignores the filter type fails), also after an earlier request of another kind on another signal.',
     'C19': 'Two-call histories: the same call made twice on the same signal gives the same result.',
